@@ -40,10 +40,15 @@ def _case(draw):
         w2 = w1 + 12
     stride = min(w1, w2) - 576
     k = draw(st.integers(0, 12))
-    ns = k * stride + draw(st.integers(1, min(w1, w2)))
+    # length of the last window of the smaller window size: anywhere, or on the constants the converter compares with
+    # (one LF sample = 12, taper 144, 2 x taper 288, overlap 576, a full window), each with its neighbours
+    wmin = min(w1, w2)
+    last = draw(st.one_of(st.integers(1, wmin),
+                          st.sampled_from([1, 11, 12, 13, 143, 144, 145, 287, 288, 289, 575, 576, 577, 588, wmin - 12, wmin - 1, wmin])))
+    ns = k * stride + max(1, min(last, wmin))
     ns = int(min(max(ns, 2000), 40000))
-    if ns % 12 == 0:
-        ns += draw(st.integers(1, 11))
+    if ns % 12 == 0 and draw(st.integers(0, 2)) > 0:
+        ns += draw(st.integers(1, 11))  # two cases in three: not a whole number of LF samples
     spec["ns"] = ns
     return {"spec": spec, "w": [w1, w2], "content_seed": draw(st.integers(0, 2 ** 31)), "cbin_in": draw(st.integers(0, 3)) == 0,
             # the second window size is processed by the SAME converter object (init_params called again; NP2.4: into new
@@ -73,7 +78,7 @@ def run_case(case, ctx):
     shank = np2.shank_of_channels(spec)
     shanks = sorted(set(shank.tolist()))
     is24 = spec["gen"] == "NP2.4"
-    ctx.label(spec["gen"], "shanks_%d" % len(shanks), "cbin_in" if case["cbin_in"] else "bin_in")
+    ctx.label(spec["gen"], "shanks_%d" % len(shanks), "cbin_in" if case["cbin_in"] else "bin_in", "ns_mult12" if ns % 12 == 0 else "ns_not_mult12")
     nlf = -(-ns // 12)
     sos = scipy.signal.butter(2, 1000 / 2500 / 2, btype="lowpass", output="sos")
     ref_all = scipy.signal.sosfiltfilt(sos, D[:, :nap].astype(np.float64), axis=0)[::12]
